@@ -13,7 +13,7 @@ from . import pcheck
 
 GENS = ["c02", "c03", "c04", "c05", "c06", "c07", "c08", "c09", "c10", "c11", "c12", "c13", "c14", "c15", "c16", "c17", "c19", "c20",
         "c22", "c24"]
-CONE = ["Proofs/PanicProofs.vo", "Proofs/CLPZProofs.vo"]
+CONE = ["Proofs/PanicProofs.vo", "Proofs/CLPZProofs.vo", "Proofs/KeyProofs.vo", "Proofs/KeyStream.vo"]
 
 
 def collect(tier, seed):
